@@ -12,7 +12,7 @@
   A zero reference price is handled honestly: the quotient is then `nan` (x = 0) or `±inf`
   (`step_zero`); `step_total` states that `next` never panics whatever the prices are.
 -/
-import TaRs.Lemmas.Core.RateOfChange
+import TaRs.Lemmas.RateOfChange
 import TaRs.Lemmas.Ring
 import TaRs.Lemmas.XLemmas
 import TaRs.Lemmas.Machine
@@ -223,11 +223,8 @@ theorem step_gen {n : Nat} {s : RateOfChange (X K)} {h : List K} (i : Inv n s h)
   refine ⟨{ period := p, index := if ix + 1 < p then ix + 1 else 0,
             count := if p < c then c else c + 1,
             deque := d.setIfInBounds ix (X.fin x) }, ?_, ⟨rfl, hsmall, ?_, ?_⟩⟩
-  · unfold next
-    rw [← hprev]
-    have hcle : c ≤ p + 1 := by omega
-    by_cases c0 : p < c <;> by_cases c1 : ix + 1 < p <;> by_cases c2 : c = 0 <;>
-      simp (disch := omega) [index_eq, setIndex_eq, uadd_eq, c0, c1, c2, rocX]
+  · rw [next_eq _ (X.fin x) _ _ (inv_wf i) (Array.getElem?_eq_getElem hix) (Array.getElem?_eq_getElem h0)]
+    simp only [hprev, rocX]
   · simp only [List.map_append, List.map_cons, List.map_nil]
     exact ⟨hpush.npos, hpush.size, hpush.idx, by simp, hpush.partial_, hpush.full⟩
   · simp only [List.length_append, List.length_singleton]
